@@ -1,275 +1,28 @@
-import RV.C03.ChainLemmas
+import RV.C03.MapLemmas
 /-
-  C03 — the long (`"""`) branch of `Literal._quote_encode`:
-  the replace chain + final-quote rule equals a one-pass encoder `encG true true`, which the W3C
-  STRING_LITERAL_LONG_QUOTE grammar decodes back.
+  C03 — the long (`"""`) form of the Turtle writer: the one-pass writer `encLong m` (per-character map `m` plus
+  the two context rules for quotes) is decoded back by the W3C STRING_LITERAL_LONG_QUOTE grammar, for every map
+  satisfying the decidable `mapOK [bs] m`.
 -/
 namespace RV.C03
 
-def esc3 : Str := [bs, dq, bs, dq, bs, dq]
+theorem encLong_nil (m : List (Char × Str)) : encLong m [] = [] := by simp [encLong, encLongAux]
 
-/-- what one source character becomes; `fin` = apply the final-quote rule, `crE` = apply the `\r` step -/
-def piece (fin crE : Bool) (x : Char) (last : Bool) : Str :=
-  if x = bs then [bs, bs]
-  else if x = cr ∧ crE = true then [bs, 'r']
-  else if x = dq ∧ last = true ∧ fin = true then [bs, dq]
-  else [x]
+theorem encLong_triple (m : List (Char × Str)) (t : Str) :
+    encLong m (dq :: dq :: dq :: t) = esc3 ++ encLong m t := by
+  simp [encLong, encLongAux]
 
-/-- one-pass form of the long branch -/
-def encG (fin crE : Bool) : Str → Str
-  | x :: y :: z :: t =>
-    if x = dq ∧ y = dq ∧ z = dq then esc3 ++ encG fin crE t
-    else piece fin crE x false ++ encG fin crE (y :: z :: t)
-  | x :: t => piece fin crE x t.isEmpty ++ encG fin crE t
-  | [] => []
-termination_by s => s.length
-
-theorem encG_nil (f c : Bool) : encG f c [] = [] := by rw [encG]
-
-theorem encG_triple (f c : Bool) (t : Str) : encG f c (dq :: dq :: dq :: t) = esc3 ++ encG f c t := by
-  rw [encG]; simp
-
-theorem encG_step (f c : Bool) (x : Char) (t : Str) (h : ¬ (x = dq ∧ ∃ t', t = dq :: dq :: t')) :
-    encG f c (x :: t) = piece f c x t.isEmpty ++ encG f c t := by
+theorem encLong_step (m : List (Char × Str)) (x : Char) (t : Str) (h : ¬ (x = dq ∧ ∃ t', t = dq :: dq :: t')) :
+    encLong m (x :: t) = pieceL m x t.isEmpty ++ encLong m t := by
   match t with
-  | [] => rw [encG]; intro _ _ _ h; cases h
-  | [y] => rw [encG]; intro _ _ _ h; cases h
+  | [] => simp [encLong, encLongAux]
+  | [y] => simp [encLong, encLongAux]
   | y :: z :: t' =>
-    rw [encG]
     have : ¬ (x = dq ∧ y = dq ∧ z = dq) := by
       rintro ⟨h1, h2, h3⟩; exact h ⟨h1, t', by rw [h2, h3]⟩
-    simp [this]
+    simp only [encLong, encLongAux, this, if_false, List.isEmpty_cons]
 
-/-! #### `replace3` -/
-
-theorem replace3_nil (a b c : Char) (w : Str) : replace3 a b c w [] = [] := by
-  simp [replace3, replace3Aux]
-
-theorem replace3_triple (a b c : Char) (w t : Str) :
-    replace3 a b c w (a :: b :: c :: t) = w ++ replace3 a b c w t := by
-  simp [replace3, replace3Aux]
-
-theorem replace3_step (a b c : Char) (w : Str) (x : Char) (t : Str)
-    (h : ¬ (x = a ∧ ∃ t', t = b :: c :: t')) :
-    replace3 a b c w (x :: t) = x :: replace3 a b c w t := by
-  match t with
-  | [] => simp [replace3, replace3Aux]
-  | [y] => simp [replace3, replace3Aux]
-  | y :: z :: t' =>
-    have : ¬ (x = a ∧ y = b ∧ z = c) := by
-      rintro ⟨h1, h2, h3⟩; exact h ⟨h1, t', by rw [h2, h3]⟩
-    simp only [replace3, replace3Aux, this, if_false]
-
-def dbl (x : Char) : Str := if x = bs then [bs, bs] else [x]
-
-theorem dbl_of_ne {x : Char} (h : x ≠ bs) : dbl x = [x] := by simp [dbl, h]
-
-theorem flatMap_dbl_starts2 (t T' : Str) (h : t.flatMap dbl = dq :: dq :: T') : ∃ t', t = dq :: dq :: t' := by
-  match t with
-  | [] => simp at h
-  | y :: t1 =>
-    by_cases hy : y = bs
-    · subst hy; simp [dbl] at h; exact absurd h.1 (by decide)
-    · rw [List.flatMap_cons, dbl_of_ne hy] at h
-      simp at h
-      obtain ⟨rfl, h⟩ := h
-      match t1 with
-      | [] => simp at h
-      | z :: t2 =>
-        by_cases hz : z = bs
-        · subst hz; simp [dbl] at h; exact absurd h.1 (by decide)
-        · rw [List.flatMap_cons, dbl_of_ne hz] at h
-          simp at h
-          obtain ⟨rfl, _⟩ := h
-          exact ⟨t2, rfl⟩
-
-theorem piece_ff (x : Char) (l : Bool) : piece false false x l = dbl x := by
-  unfold piece dbl; simp
-
-theorem replace3_dbl_aux (n : Nat) : ∀ s : Str, s.length ≤ n →
-    replace3 dq dq dq esc3 (s.flatMap dbl) = encG false false s := by
-  induction n with
-  | zero =>
-    intro s h
-    have : s = [] := List.eq_nil_of_length_eq_zero (by omega)
-    subst this; simp [replace3_nil, encG_nil]
-  | succ n ih =>
-    intro s h
-    match s with
-    | [] => simp [replace3_nil, encG_nil]
-    | x :: t =>
-      simp only [List.length_cons] at h
-      by_cases htr : x = dq ∧ ∃ t', t = dq :: dq :: t'
-      · obtain ⟨rfl, t', rfl⟩ := htr
-        have e : (dq :: dq :: dq :: t').flatMap dbl = dq :: dq :: dq :: t'.flatMap dbl := by
-          simp [List.flatMap_cons, show dbl dq = [dq] from by decide]
-        simp only [List.length_cons] at h
-        rw [e, replace3_triple, encG_triple, ih t' (by omega)]
-      · rw [encG_step _ _ _ _ htr, piece_ff, List.flatMap_cons]
-        have iht := ih t (by omega)
-        by_cases hx : x = bs
-        · subst hx
-          rw [show dbl bs = [bs, bs] from by decide]
-          simp only [List.cons_append, List.nil_append]
-          rw [replace3_step _ _ _ _ _ _ (by rintro ⟨h1, _⟩; exact absurd h1 (by decide)),
-            replace3_step _ _ _ _ _ _ (by rintro ⟨h1, _⟩; exact absurd h1 (by decide)), iht]
-        · rw [dbl_of_ne hx]
-          simp only [List.cons_append, List.nil_append]
-          rw [replace3_step, iht]
-          rintro ⟨h1, T', hT⟩
-          exact htr ⟨h1, flatMap_dbl_starts2 t T' hT⟩
-
-/-- L1: the `\"\"\"` replacement over the backslash-doubled text, in one pass -/
-theorem replace3_dbl (s : Str) : replace3 dq dq dq esc3 (s.flatMap dbl) = encG false false s :=
-  replace3_dbl_aux s.length s (Nat.le_refl _)
-
-theorem hasTriple_triple (t : Str) : hasTriple (dq :: dq :: dq :: t) = true := by
-  simp [hasTriple]
-
-theorem hasTriple_tail (x : Char) (t : Str) (h : hasTriple (x :: t) = false) : hasTriple t = false := by
-  simp only [hasTriple, Bool.or_eq_false_iff] at h
-  exact h.2
-
-/-- without a `\"\"\"` in the text the replacement step is skipped; same one-pass form -/
-theorem noTriple_dbl (s : Str) (hn : hasTriple s = false) : s.flatMap dbl = encG false false s := by
-  induction s with
-  | nil => simp [encG_nil]
-  | cons x t ih =>
-    have htr : ¬ (x = dq ∧ ∃ t', t = dq :: dq :: t') := by
-      rintro ⟨rfl, t', rfl⟩
-      rw [hasTriple_triple] at hn; exact absurd hn (by simp)
-    rw [encG_step _ _ _ _ htr, piece_ff, List.flatMap_cons, ih (hasTriple_tail x t hn)]
-
-/-! #### the final-quote rule -/
-
-/-- the trailing run of backslashes of `P` has even length -/
-def evenRun (P : Str) : Prop := leadingBs P.reverse % 2 = 0
-
-theorem evenRun_nil : evenRun [] := by simp [evenRun, leadingBs]
-
-theorem evenRun_bsbs {P : Str} (h : evenRun P) : evenRun (P ++ [bs, bs]) := by
-  unfold evenRun at *
-  simp [leadingBs]
-  omega
-
-theorem evenRun_ne {P : Str} {x : Char} (hx : x ≠ bs) : evenRun (P ++ [x]) := by
-  unfold evenRun
-  simp [leadingBs, hx]
-
-theorem evenRun_dbl {P : Str} (x : Char) (h : evenRun P) : evenRun (P ++ dbl x) := by
-  by_cases hx : x = bs
-  · subst hx; rw [show dbl bs = [bs, bs] from by decide]; exact evenRun_bsbs h
-  · rw [dbl_of_ne hx]; exact evenRun_ne hx
-
-theorem evenRun_esc3 (P : Str) : evenRun (P ++ esc3) := by
-  unfold evenRun esc3
-  have : dq ≠ bs := by decide
-  simp [leadingBs, this]
-
-theorem fix_esc3 (P : Str) : fixFinalQuote (P ++ esc3) = P ++ esc3 := by
-  unfold fixFinalQuote esc3
-  have : dq ≠ bs := by decide
-  simp [leadingBs, this]
-
-theorem fix_last (P : Str) (x : Char) (hP : evenRun P) :
-    fixFinalQuote (P ++ dbl x) = P ++ piece true false x true := by
-  by_cases hb : x = bs
-  · subst hb
-    rw [show dbl bs = [bs, bs] from by decide, show piece true false bs true = [bs, bs] from by decide]
-    unfold fixFinalQuote
-    simp
-    intro h; exact absurd h (by decide)
-  · rw [dbl_of_ne hb]
-    by_cases hq : x = dq
-    · subst hq
-      rw [show piece true false dq true = [bs, dq] from by decide]
-      unfold fixFinalQuote
-      unfold evenRun at hP
-      simp [hP]
-    · have : piece true false x true = [x] := by simp [piece, hb, hq]
-      rw [this]
-      unfold fixFinalQuote
-      simp [hq]
-
-theorem piece_notlast (f c : Bool) (x : Char) : piece f c x false = piece false c x false := by
-  unfold piece; simp
-
-theorem fixFinal_aux (n : Nat) : ∀ (s P : Str), s.length ≤ n → s ≠ [] → evenRun P →
-    fixFinalQuote (P ++ encG false false s) = P ++ encG true false s := by
-  induction n with
-  | zero =>
-    intro s P h hs _
-    exact absurd (List.eq_nil_of_length_eq_zero (by omega)) hs
-  | succ n ih =>
-    intro s P h hs hP
-    match s with
-    | [] => exact absurd rfl hs
-    | x :: t =>
-      simp only [List.length_cons] at h
-      by_cases htr : x = dq ∧ ∃ t', t = dq :: dq :: t'
-      · obtain ⟨rfl, t', rfl⟩ := htr
-        simp only [List.length_cons] at h
-        rw [encG_triple, encG_triple]
-        by_cases ht' : t' = []
-        · subst ht'; simp only [encG_nil, List.append_nil]; exact fix_esc3 P
-        · rw [← List.append_assoc, ← List.append_assoc]
-          exact ih t' (P ++ esc3) (by omega) ht' (evenRun_esc3 P)
-      · rw [encG_step _ _ _ _ htr, encG_step _ _ _ _ htr]
-        by_cases ht : t = []
-        · subst ht
-          simp only [encG_nil, List.append_nil, List.isEmpty_nil, piece_ff]
-          exact fix_last P x hP
-        · have he : t.isEmpty = false := by cases t with | nil => exact absurd rfl ht | cons _ _ => rfl
-          rw [he, piece_notlast true, piece_ff, ← List.append_assoc, ← List.append_assoc]
-          exact ih t (P ++ dbl x) (by omega) ht (evenRun_dbl x hP)
-
-/-- G: the final-quote rule applied to the one-pass text -/
-theorem fixFinal_encG (s : Str) (hs : s ≠ []) : fixFinalQuote (encG false false s) = encG true false s := by
-  have := fixFinal_aux s.length s [] (Nat.le_refl _) hs evenRun_nil
-  simpa using this
-
-/-! #### the `\r` step -/
-
-theorem replaceChar_append (c : Char) (w a b : Str) :
-    replaceChar c w (a ++ b) = replaceChar c w a ++ replaceChar c w b := by
-  simp [replaceChar, List.flatMap_append]
-
-theorem cr_piece (x : Char) (l : Bool) :
-    replaceChar cr [bs, 'r'] (piece true false x l) = piece true true x l := by
-  by_cases hb : x = bs
-  · subst hb; cases l <;> decide
-  by_cases hc : x = cr
-  · subst hc; cases l <;> decide
-  by_cases hq : x = dq
-  · subst hq; cases l <;> decide
-  have h1 : piece true false x l = [x] := by simp [piece, hb, hc, hq]
-  have h2 : piece true true x l = [x] := by simp [piece, hb, hc, hq]
-  rw [h1, h2]; simp [replaceChar, hc]
-
-theorem crStep_aux (n : Nat) : ∀ s : Str, s.length ≤ n →
-    replaceChar cr [bs, 'r'] (encG true false s) = encG true true s := by
-  induction n with
-  | zero =>
-    intro s h
-    have : s = [] := List.eq_nil_of_length_eq_zero (by omega)
-    subst this; simp [encG_nil, replaceChar]
-  | succ n ih =>
-    intro s h
-    match s with
-    | [] => simp [encG_nil, replaceChar]
-    | x :: t =>
-      simp only [List.length_cons] at h
-      by_cases htr : x = dq ∧ ∃ t', t = dq :: dq :: t'
-      · obtain ⟨rfl, t', rfl⟩ := htr
-        simp only [List.length_cons] at h
-        rw [encG_triple, encG_triple, replaceChar_append, ih t' (by omega)]
-        congr 1
-      · rw [encG_step _ _ _ _ htr, encG_step _ _ _ _ htr, replaceChar_append, ih t (by omega), cr_piece]
-
-theorem crStep_encG (s : Str) : replaceChar cr [bs, 'r'] (encG true false s) = encG true true s :=
-  crStep_aux s.length s (Nat.le_refl _)
-
-/-! #### decoding the one-pass text with the W3C long-string grammar -/
+/-! #### decoder steps -/
 
 theorem decLong_close (q : Char) : decLongBody q [q, q, q] = some [] := by
   rw [decLongBody]; simp
@@ -284,15 +37,15 @@ theorem decLong_q2 (q c : Char) (E : Str) (h : c ≠ q) :
   conv => lhs; rw [decLongBody.eq_def]
   simp [h]
 
-theorem decLong_echar (q e d : Char) (E : Str) (h : echar e = some d) (hq : bs ≠ q) :
-    decLongBody q (bs :: e :: E) = consOpt d (decLongBody q E) := by
+theorem decLong_esc (q c : Char) (r E : Str) (h : unescape r = some (c, [])) (hq : bs ≠ q) :
+    decLongBody q (bs :: (r ++ E)) = consOpt c (decLongBody q E) := by
   conv => lhs; rw [decLongBody.eq_def]
   simp only [hq, if_false, if_true]
   split
   · next d' r' h' =>
-    rw [unescape_echar E h] at h'
+    rw [unescape_append h] at h'
     simp at h'; obtain ⟨rfl, rfl⟩ := h'; rfl
-  · next h' => rw [unescape_echar E h] at h'; simp at h'
+  · next h' => rw [unescape_append h] at h'; simp at h'
 
 theorem decLong_plain (q c : Char) (E : Str) (h1 : c ≠ q) (h2 : c ≠ bs) :
     decLongBody q (c :: E) = consOpt c (decLongBody q E) := by
@@ -304,28 +57,29 @@ def tq : Str := [dq, dq, dq]
 /-- text that does not begin with a quote: what may follow one or two raw quotes -/
 def startsNonQuote (E : Str) : Prop := ∃ c E', E = c :: E' ∧ c ≠ dq
 
-theorem piece_tt_ne_head {x : Char} (hx : x ≠ dq) (l : Bool) (T : Str) : startsNonQuote (piece true true x l ++ T) := by
-  by_cases hb : x = bs
-  · subst hb; exact ⟨bs, bs :: T, by simp [piece], by decide⟩
-  by_cases hc : x = cr
-  · subst hc; exact ⟨bs, 'r' :: T, by simp [piece, show cr ≠ bs from by decide], by decide⟩
-  · exact ⟨x, T, by simp [piece, hb, hc, hx], hx⟩
+theorem unescape_dq : unescape [dq] = some (dq, []) := by decide
 
-theorem encG_head_ne {x : Char} (hx : x ≠ dq) (t T : Str) : startsNonQuote (encG true true (x :: t) ++ T) := by
-  rw [encG_step _ _ _ _ (by rintro ⟨h, _⟩; exact hx h), List.append_assoc]
-  exact piece_tt_ne_head hx _ _
+theorem pieceL_ne {m : List (Char × Str)} {x : Char} (hx : x ≠ dq) (l : Bool) : pieceL m x l = escOf m x := by
+  simp [pieceL, hx]
 
-theorem long_decode_aux (n : Nat) : ∀ s : Str, s.length ≤ n →
-    decLongBody dq (encG true true s ++ tq) = some s := by
+theorem encLong_head_ne {m : List (Char × Str)} (hm : mapOK [bs] m = true) {x : Char} (hx : x ≠ dq) (t T : Str) :
+    startsNonQuote (encLong m (x :: t) ++ T) := by
+  rw [encLong_step _ _ _ (by rintro ⟨h, _⟩; exact hx h), pieceL_ne hx, List.append_assoc]
+  rcases map_char hm x with ⟨r, he, _⟩ | ⟨he, _⟩
+  · exact ⟨bs, r ++ (encLong m t ++ T), by rw [he]; rfl, by decide⟩
+  · exact ⟨x, encLong m t ++ T, by rw [he]; rfl, hx⟩
+
+theorem long_decode_aux {m : List (Char × Str)} (hm : mapOK [bs] m = true) (n : Nat) : ∀ s : Str, s.length ≤ n →
+    decLongBody dq (encLong m s ++ tq) = some s := by
   induction n with
   | zero =>
     intro s h
     have : s = [] := List.eq_nil_of_length_eq_zero (by omega)
-    subst this; simp [encG_nil, tq, decLong_close]
+    subst this; simp [encLong_nil, tq, decLong_close]
   | succ n ih =>
     intro s h
     match s with
-    | [] => simp [encG_nil, tq, decLong_close]
+    | [] => simp [encLong_nil, tq, decLong_close]
     | x :: t =>
       simp only [List.length_cons] at h
       by_cases hq : x = dq
@@ -333,10 +87,11 @@ theorem long_decode_aux (n : Nat) : ∀ s : Str, s.length ≤ n →
         match t with
         | [] =>
           -- a final raw quote is escaped
-          rw [encG_step _ _ _ _ (by rintro ⟨_, t', h'⟩; cases h'), encG_nil]
-          simp only [List.isEmpty_nil, show piece true true dq true = [bs, dq] from by decide,
-            List.append_nil, List.cons_append, List.nil_append]
-          rw [decLong_echar dq dq dq _ (by decide) (by decide)]
+          rw [encLong_step _ _ _ (by rintro ⟨_, t', h'⟩; cases h'), encLong_nil]
+          simp only [List.isEmpty_nil, pieceL, if_true, List.append_nil, List.cons_append, List.nil_append]
+          have := decLong_esc dq dq [dq] tq unescape_dq (by decide)
+          simp only [List.cons_append, List.nil_append] at this
+          rw [this]
           simp [tq, decLong_close, consOpt]
         | y :: t1 =>
           simp only [List.length_cons] at h
@@ -345,94 +100,63 @@ theorem long_decode_aux (n : Nat) : ∀ s : Str, s.length ≤ n →
             match t1 with
             | [] =>
               -- text ends in two quotes:  `"` then `\"`
-              rw [encG_step _ _ _ _ (by rintro ⟨_, t', h'⟩; cases h'),
-                encG_step _ _ _ _ (by rintro ⟨_, t', h'⟩; cases h'), encG_nil]
-              simp only [List.isEmpty_nil, List.isEmpty_cons, show piece true true dq true = [bs, dq] from by decide,
-                show piece true true dq false = [dq] from by decide, List.append_nil, List.cons_append,
-                List.nil_append]
-              rw [decLong_q1 dq bs _ (by decide), decLong_echar dq dq dq _ (by decide) (by decide)]
+              rw [encLong_step _ _ _ (by rintro ⟨_, t', h'⟩; cases h'),
+                encLong_step _ _ _ (by rintro ⟨_, t', h'⟩; cases h'), encLong_nil]
+              simp only [List.isEmpty_nil, List.isEmpty_cons, pieceL, if_true, Bool.false_eq_true, if_false,
+                List.append_nil, List.cons_append, List.nil_append]
+              have := decLong_esc dq dq [dq] tq unescape_dq (by decide)
+              simp only [List.cons_append, List.nil_append] at this
+              rw [decLong_q1 dq bs _ (by decide), this]
               simp [tq, decLong_close, consOpt]
             | z :: t2 =>
               simp only [List.length_cons] at h
               by_cases hz : z = dq
               · subst hz
-                rw [encG_triple, List.append_assoc]
+                rw [encLong_triple, List.append_assoc]
+                have e1 := fun E => decLong_esc dq dq [dq] E unescape_dq (by decide)
+                simp only [List.cons_append, List.nil_append] at e1
                 simp only [esc3, List.cons_append, List.nil_append]
-                rw [decLong_echar dq dq dq _ (by decide) (by decide),
-                  decLong_echar dq dq dq _ (by decide) (by decide),
-                  decLong_echar dq dq dq _ (by decide) (by decide), ih t2 (by omega)]
+                rw [e1, e1, e1, ih t2 (by omega)]
                 rfl
               · -- two raw quotes followed by a non-quote item
                 have n1 : ¬ (dq = dq ∧ ∃ t', dq :: z :: t2 = dq :: dq :: t') := by
                   rintro ⟨_, t', h'⟩; simp at h'; exact hz h'.1
                 have n2 : ¬ (dq = dq ∧ ∃ t', z :: t2 = dq :: dq :: t') := by
                   rintro ⟨_, t', h'⟩; simp at h'; exact hz h'.1
-                rw [encG_step _ _ _ _ n1, encG_step _ _ _ _ n2]
-                simp only [List.isEmpty_cons, show piece true true dq false = [dq] from by decide,
-                  List.cons_append, List.nil_append]
-                obtain ⟨c, E', hE, hc⟩ := encG_head_ne hz t2 tq
+                rw [encLong_step _ _ _ n1, encLong_step _ _ _ n2]
+                simp only [List.isEmpty_cons, pieceL, if_true, Bool.false_eq_true, if_false, List.cons_append,
+                  List.nil_append]
+                obtain ⟨c, E', hE, hc⟩ := encLong_head_ne hm hz t2 tq
                 rw [hE, decLong_q2 dq c E' hc, ← hE, ih (z :: t2) (by simp; omega)]
                 rfl
           · -- one raw quote followed by a non-quote item
             have n1 : ¬ (dq = dq ∧ ∃ t', y :: t1 = dq :: dq :: t') := by
               rintro ⟨_, t', h'⟩; simp at h'; exact hy h'.1
-            rw [encG_step _ _ _ _ n1]
-            simp only [List.isEmpty_cons, show piece true true dq false = [dq] from by decide,
-              List.cons_append, List.nil_append]
-            obtain ⟨c, E', hE, hc⟩ := encG_head_ne hy t1 tq
+            rw [encLong_step _ _ _ n1]
+            simp only [List.isEmpty_cons, pieceL, if_true, Bool.false_eq_true, if_false, List.cons_append,
+              List.nil_append]
+            obtain ⟨c, E', hE, hc⟩ := encLong_head_ne hm hy t1 tq
             rw [hE, decLong_q1 dq c E' hc, ← hE, ih (y :: t1) (by simp; omega)]
             rfl
       · have ns : ¬ (x = dq ∧ ∃ t', t = dq :: dq :: t') := by rintro ⟨h', _⟩; exact hq h'
-        rw [encG_step _ _ _ _ ns, List.append_assoc]
+        rw [encLong_step _ _ _ ns, pieceL_ne hq, List.append_assoc]
         have iht := ih t (by omega)
-        by_cases hb : x = bs
-        · subst hb
-          rw [show piece true true bs t.isEmpty = [bs, bs] from by simp [piece]]
-          simp only [List.cons_append, List.nil_append]
-          rw [decLong_echar dq bs bs _ (by decide) (by decide), iht]; rfl
-        by_cases hc : x = cr
-        · subst hc
-          rw [show piece true true cr t.isEmpty = [bs, 'r'] from by simp [piece, show cr ≠ bs from by decide]]
-          simp only [List.cons_append, List.nil_append]
-          rw [decLong_echar dq 'r' cr _ (by decide) (by decide), iht]; rfl
-        · rw [show piece true true x t.isEmpty = [x] from by simp [piece, hb, hc, hq]]
+        rcases map_char hm x with ⟨r, he, hun⟩ | ⟨he, hx⟩
+        · rw [he, List.cons_append, decLong_esc dq x r _ hun (by decide), iht]; rfl
+        · have hb : x ≠ bs := mem_req hx bs (by simp)
+          rw [he]
           simp only [List.cons_append, List.nil_append]
           rw [decLong_plain dq x _ hq hb, iht]; rfl
 
-theorem long_decode (s : Str) : decLongBody dq (encG true true s ++ tq) = some s :=
-  long_decode_aux s.length s (Nat.le_refl _)
-
-/-! #### the chain as written in `Literal._quote_encode` -/
-
-theorem long_chain_eq (s : Str) (hs : s ≠ []) :
-    replaceStr Tables.longStep3.1 Tables.longStep3.2
-      (fixFinalQuote
-        (if hasTriple s then replaceStr Tables.longStep2.1 Tables.longStep2.2
-            (replaceStr Tables.longStep1.1 Tables.longStep1.2 s)
-         else replaceStr Tables.longStep1.1 Tables.longStep1.2 s)) = encG true true s := by
-  have e1 : replaceStr Tables.longStep1.1 Tables.longStep1.2 s = s.flatMap dbl := by
-    simp only [Tables.longStep1, replaceStr, replaceChar]
-    rfl
-  have e2 : ∀ l, replaceStr Tables.longStep2.1 Tables.longStep2.2 l = replace3 dq dq dq esc3 l := by
-    intro l; simp only [Tables.longStep2, replaceStr]; rfl
-  have e3 : ∀ l, replaceStr Tables.longStep3.1 Tables.longStep3.2 l = replaceChar cr [bs, 'r'] l := by
-    intro l; simp only [Tables.longStep3, replaceStr]; rfl
-  have mid : (if hasTriple s then replaceStr Tables.longStep2.1 Tables.longStep2.2
-            (replaceStr Tables.longStep1.1 Tables.longStep1.2 s)
-         else replaceStr Tables.longStep1.1 Tables.longStep1.2 s) = encG false false s := by
-    rw [e1]
-    by_cases ht : hasTriple s = true
-    · rw [if_pos ht, e2, replace3_dbl]
-    · rw [if_neg ht, noTriple_dbl s (by simpa using ht)]
-  rw [mid, e3, fixFinal_encG s hs, crStep_encG]
+theorem long_decode {m : List (Char × Str)} (hm : mapOK [bs] m = true) (s : Str) :
+    decLongBody dq (encLong m s ++ tq) = some s :=
+  long_decode_aux hm s.length s (Nat.le_refl _)
 
 theorem turtle_long_roundtrip (s : Str) (hlf : lf ∈ s) : decodeTurtle (quoteEncode s) = some s := by
-  have hs : s ≠ [] := by intro h; subst h; simp at hlf
   unfold quoteEncode
   simp only [hlf, if_true]
-  rw [long_chain_eq s hs]
   unfold decodeTurtle
   simp only [List.cons_append, List.nil_append, and_self, if_true]
-  exact long_decode s
+  exact long_decode longMap_ok s
 
 end RV.C03
